@@ -447,6 +447,7 @@ class GridUFunc:
         axis: Sequence[str],
         **kwargs,
     ):
+        boundary_width = kwargs.pop("boundary_width", self.boundary_width)
         boundary = kwargs.pop("boundary", self.boundary)
         fill_value = kwargs.pop("fill_value", self.fill_value)
         dask = kwargs.pop("dask", self.dask)
@@ -458,7 +459,7 @@ class GridUFunc:
             axis=axis,
             grid=grid,
             signature=self.signature,
-            boundary_width=self.boundary_width,
+            boundary_width=boundary_width,
             boundary=boundary,
             fill_value=fill_value,
             dask=dask,
